@@ -78,7 +78,7 @@ fn parse_toks(s: &str) -> Option<Vec<Vec<u8>>> {
 }
 
 /// blank-separated numbers, `-` for none
-fn lens_str(v: &[usize]) -> String {
+pub fn lens_str(v: &[usize]) -> String {
     if v.is_empty() {
         return "-".to_string();
     }
@@ -524,7 +524,7 @@ const BAD: [&[u8]; 9] =
     [&[0xff], &[0xc3], &[0xe2, 0x80], &[0xf0, 0x9f], &[0xed, 0xa0, 0x80], &[0xc0, 0xaf], &[0x80], &[0xf0, 0x9f, 0x98], &[0xe2, 0x82]];
 
 /// a random text as a list of units (words, separators, terminators, for `invalid` also broken UTF-8)
-fn random_units(rng: &mut Rng, max_lines: usize, invalid: bool) -> Vec<Vec<u8>> {
+pub fn random_units(rng: &mut Rng, max_lines: usize, invalid: bool) -> Vec<Vec<u8>> {
     let mut u: Vec<Vec<u8>> = vec![];
     let lines = rng.below(max_lines + 1);
     for l in 0..lines {
